@@ -264,14 +264,16 @@ let dispatch (f : string) (args : sx list) : sx =
   | "pkg_addobject", [pf; L taken; nm] ->
       let (c, r) = Package.add_object (str_of_sx pf) (SL.map str_of_sx taken) (ODoc ([], [], false, [], [])) (opt_of_sx str_of_sx nm) in
       L [sx_of_str (o_folder c); sx_of_str r]
-  | "pkg_classify", [L man; p] ->
+  | "pkg_classify", [L man; L fo; p] ->
       let m = SL.map (function L [a; b] -> (str_of_sx a, str_of_sx b) | _ -> failwith "man") man in
-      A (match Package.classify m (str_of_sx p) with
+      let fo = SL.map str_of_sx fo in
+      A (match Package.classify (fun q -> SL.mem q fo) m (str_of_sx p) with
          | IsPicture -> "picture" | IsThumbnail -> "thumbnail" | IsRootPart -> "rootpart" | IsRootEntry -> "rootentry"
          | IsObject -> "object" | IsObjectPart -> "objectpart" | IsExtra -> "extra")
-  | "pkg_load_reads", [L man] ->
+  | "pkg_load_reads", [L man; L fo] ->
       let m = SL.map (function L [a; b] -> (str_of_sx a, str_of_sx b) | _ -> failwith "man") man in
-      L (SL.map sx_of_str (ParseSites.load_reads m))
+      let fo = SL.map str_of_sx fo in
+      L (SL.map sx_of_str (ParseSites.load_reads (fun q -> SL.mem q fo) m))
   | "doc_render", [A kind; env; L [mime; me; sc; ff; se; st; au; ma; bo]] ->
       let d = { d_mime = str_of_sx mime; d_meta = node_of_sx me; d_scripts = node_of_sx sc; d_ffd = node_of_sx ff; d_settings = node_of_sx se;
                 d_styles = node_of_sx st; d_auto = node_of_sx au; d_master = node_of_sx ma; d_body = node_of_sx bo } in
